@@ -132,7 +132,12 @@ impl Prop for C08 {
         };
         // mode "stall": root directly over Stall(d, Echo): the documented warm-up table applies
         let direct_stall = unary_like && child_spec.k == K::Stall && child_spec.kids[0].k == K::Echo;
-        let table = if direct_stall { warmup(spec) } else { None };
+        // ... and, through the stand-alone twin of the child, to any root over any subtree: the table
+        // counts values *delivered by the inner view*, whatever that inner view is
+        let table = if unary_like && child.is_some() { warmup(spec) } else { None };
+        if direct_stall {
+            out.stats.hit("reach.root_directly_over_stall");
+        }
         let initial = match try_last(&root) {
             Ok(v) => v,
             Err(_) => {
@@ -214,7 +219,7 @@ impl Prop for C08 {
                         }
                     }
                     // oracle 4: documented warm-up, counted in values delivered by the (stalled) child
-                    if let Some((a, b)) = table {
+                    if let (Some((a, b)), true) = (table, child.is_some()) {
                         let k = child_seen;
                         if k >= 1 {
                             out.nontrivial = true;
@@ -292,7 +297,7 @@ impl Prop for C08 {
     }
 
     fn rule(&self) -> String {
-        "Mode 'stall' (runs below the systematic bound): every wrapper (32 unary views, PFE, EFT) x N in {1..9,16,33,64} x stall length d in {0,1,N,random 0..2N+3}, built directly over Stall(d,Echo): the root's first inner value arrives at delivery d+1, so the documented warm-up table (two-sided: None before, Some from) is asserted in values delivered by the child. Mode 'tree': random trees of depth 1-3 with combinators, stalled leaves and stalled inner nodes; a stand-alone twin of the root's child tells when the root is starved. Oracles after construction and after every event: readiness monotone, every reported value finite, answer bit-identical to the post-construction answer while the child has delivered nothing. Feeds: 14 workload shapes (constant, zeros, ties, zero-sum, volatile-then-flat, monotone, ...), scale 1e-3..1e6, lengths 1..3*(window sum)+40, 10% 1000-4000, thorough 1% 20k-100k. distinct = distinct (topology, event-kind schedule); non-trivial = at least one starved delivery was checked, or the warm-up table was evaluated after the child started delivering."
+        "Mode 'stall' (runs below the systematic bound): every wrapper (32 unary views, PFE, EFT) x N in {1..9,16,33,64} x stall length d in {0,1,N,random 0..2N+3}, built directly over Stall(d,Echo): the root's first inner value arrives at delivery d+1, so the documented warm-up table (two-sided: None before, Some from) is asserted in values delivered by the child. Mode 'tree': random trees of depth 1-3 with combinators, stalled leaves and stalled inner nodes; a stand-alone twin of the root's child tells when the root is starved and how many values the child has delivered, so the warm-up table is asserted for every listed root over any inner subtree as well. Oracles after construction and after every event: readiness monotone, every reported value finite, answer bit-identical to the post-construction answer while the child has delivered nothing. Feeds: 14 workload shapes (constant, zeros, ties, zero-sum, volatile-then-flat, monotone, ...), scale 1e-3..1e6, lengths 1..3*(window sum)+40, 10% 1000-4000, thorough 1% 20k-100k. distinct = distinct (topology, event-kind schedule); non-trivial = at least one starved delivery was checked, or the warm-up table was evaluated after the child started delivering."
             .into()
     }
     fn assumptions(&self) -> Vec<String> {
